@@ -265,10 +265,29 @@ def build_ops(dadi):
         kw = [dict(), dict(Nref=100.0), dict(Nref=100.0, generation_time=2.0), dict(deme_mapping={'west': ['popA']}), dict(Nref=50.0, deme_mapping={'root': ['anc', 'popB']})][int(r.integers(5))]
         g = dadi.Demes.output(**kw)
         return np.array([float(ord(c)) for c in json.dumps(g.asdict(), sort_keys=True) + '|'.join(ids1 + ids2)])
+    @op
+    def integ_altgrid(r):
+        # same grid LENGTHS as integ_1d / integ_2d / integ_3d, but differently spaced grids, and both ways of passing a parameter
+        # (number -> Python tridiagonal path, function of time -> compiled kernels): anything an integrator keeps between calls
+        # about "the grid" must be keyed on the grid itself, not on its length
+        d = int(r.choice([1, 1, 2, 3])); pts = {1: 20, 2: 12, 3: 8}[d]
+        kind = int(r.integers(4)); timedep = bool(r.integers(2)); delj = bool(r.integers(4) == 0)
+        xx = [dadi.Numerics.default_grid(pts), dadi.Numerics.default_grid(pts, crwd=2.), np.linspace(0, 1, pts), dadi.Numerics.default_grid(pts, crwd=12.)][kind]
+        nu0 = float(r.uniform(0.5, 2)); nu = (lambda t: nu0 * (1 + t)) if timedep else nu0
+        phi = dadi.PhiManip.phi_1D(xx, gamma=-1.0)
+        old = dadi.Integration.use_delj_trick; dadi.Integration.use_delj_trick = delj
+        try:
+            if d == 1: return dadi.Integration.one_pop(phi, xx, 0.05, nu=nu, gamma=-1.0, h=0.3)
+            phi = dadi.PhiManip.phi_1D_to_2D(xx, phi)
+            if d == 2: return dadi.Integration.two_pops(phi, xx, 0.02, nu1=nu, nu2=0.7, m12=1.0, m21=0.3, gamma1=-1.0)
+            phi = dadi.PhiManip.phi_2D_to_3D_split_2(xx, phi)
+            return dadi.Integration.three_pops(phi, xx, 0.01, nu1=1.2, nu2=nu, nu3=0.5, m13=0.5, gamma3=0.5)
+        finally:
+            dadi.Integration.use_delj_trick = old
     assert len(ops) == N_OPS, len(ops)
     return ops
 
-N_OPS = 35
+N_OPS = 36
 
 # ---------------------------------------------------------------- memo tables: one input varied at a time
 # For every memo table of the library a family of calls whose cached computation has the inputs listed in MEMO_INPUTS.
